@@ -110,15 +110,8 @@ where
     if self.dispatcher.sender_count.fetch_sub(1, Ordering::AcqRel) != 1 {
       return;
     }
-    let pinned_map = self.dispatcher.subscriptions.pin();
-    for (_topic, list_arc) in pinned_map.iter() {
-      let subscribers_snapshot = list_arc.reader.enter();
-      for mailbox_weak in subscribers_snapshot.iter() {
-        if let Some(mailbox_strong) = mailbox_weak.upgrade() {
-          mailbox_strong.disconnect();
-        }
-      }
-    }
+    // Every mailbox, not only the currently subscribed ones.
+    self.dispatcher.disconnect_all();
   }
 
   /// Converts this synchronous `TopicSender` into an `AsyncTopicSender`.
@@ -390,10 +383,18 @@ where
         new_receiver.subscribe(topic);
       }
 
+      // Register first, then look at the sender count: either the last sender's
+      // `disconnect_all` sees this mailbox, or we see that the senders are gone.
+      dispatcher.register_mailbox(&new_receiver.producer_mailbox);
+      if dispatcher.sender_count.load(Ordering::Acquire) == 0 {
+        new_receiver.producer_mailbox.disconnect();
+      }
+
       new_receiver
     } else {
       // If the dispatcher is gone, create a dead receiver.
       let (p, c) = mailbox::channel(0);
+      p.disconnect(); // no sender can exist any more
       Self {
         dispatcher: Weak::new(),
         consumer: c,
